@@ -280,7 +280,15 @@ def run_engines(c, rng):
         if tk['vol_curve']:
             pts = spec['curves'][tk['vol_curve']]['points']
             area = min((v1 - v0) / (l1 - l0) for (l0, v0), (l1, v1) in zip(pts, pts[1:]))
-        tank_slack = max(tank_slack, 2.0 * float(rw.node['demand'][tk['name']].abs().max()) / area)
+        qt = float(rw.node['demand'][tk['name']].abs().max())
+        tank_slack = max(tank_slack, 2.0 * qt / area)
+        # after a control or tank event inside a hydraulic step the two engines restart their explicit tank integration from
+        # slightly different instants and hold different flows for the remainder of the step: with events present the levels
+        # may differ by a fraction of the level change per step (observed up to 0.1 of it on the unchanged tree)
+        if spec['controls'] or len(spec['tanks']) > 1 or any(p_['cv'] for p_ in spec['pipes']) or spec['pumps'] or spec['valves']:
+            tank_slack = max(tank_slack, 0.15 * qt * o['hydraulic_timestep'] / area)
+    # a head error e at a tank changes the flows of its links by about e / (dh/dq); bounded here by 3 % of the largest flow per 0.1 m
+    flow_slack = min(0.05, 0.3 * tank_slack) * qmax
     skip_steps = set(k for idx in mismatch.values() for k in idx)
     if bistable:
         skip_steps.add(min(bistable))
@@ -313,13 +321,13 @@ def run_engines(c, rng):
             a, b = float(rw.node['demand'][n].values[i]), float(re_.node['demand'][n].values[i])
             c.count('engine_values_compared')
             d = abs(a - b)
-            if d > 1e-5 + 1e-3 * qmax and (worst is None or d / (1e-5 + 1e-3 * qmax) > worst[0]):
-                worst = (d / (1e-5 + 1e-3 * qmax), 'demand', n, t, a, b)
+            if d > 1e-5 + 1e-3 * qmax + flow_slack and (worst is None or d / (1e-5 + 1e-3 * qmax + flow_slack) > worst[0]):
+                worst = (d / (1e-5 + 1e-3 * qmax + flow_slack), 'demand', n, t, a, b)
         for ln in links:
             a, b = float(rw.link['flowrate'][ln].values[i]), float(re_.link['flowrate'][ln].values[i])
             c.count('engine_values_compared')
             d = abs(a - b)
-            lim = 1e-5 + 1e-3 * qmax
+            lim = 1e-5 + 1e-3 * qmax + flow_slack
             if max(abs(a), abs(b)) < 4e-4:
                 lim = max(lim, 1e-4)      # inside WNTR's documented low-flow smoothing range of the Hazen-Williams law (|q| < 4e-4 m3/s)
             if d > lim and (worst is None or d / lim > worst[0]):
